@@ -153,6 +153,9 @@ func (td *ContainerTypeDef) Deserialize(dr *codec.DecodingReader) (View, error) 
 			if offset < prevOffset {
 				return nil, fmt.Errorf("offset %d of field %d is smaller than prev offset %d", offset, i, prevOffset)
 			}
+			if len(offsets) == 0 && offset != prevOffset {
+				return nil, fmt.Errorf("first offset %d of field %d does not match the fixed part size %d", offset, i, prevOffset)
+			}
 			if uint64(offset) > scope {
 				return nil, fmt.Errorf("offset %d of field %d is too big for scope %d", offset, i, scope)
 			}
